@@ -113,7 +113,11 @@ def run_case(sh, s, d, case, script=None):
     def backup(flags, unfinished=False):
         nonlocal now
         ticking = script is None and rnd.random() < 0.4
+        prev_now = now
         now = tick(now, rnd.choice([1, 2, 60, 3600, 86400]) if not ticking else rnd.choice([10, 60, 3600, 86400]))
+        same_second = script is None and not ticking and bool(backups) and random.Random(s * 41 + len(trace)).random() < 0.1
+        if same_second:
+            now = prev_now            # within the very second of the previous backup: made properly or refused, nothing in between
         argv = ['-B', '-r', repo, '-f', src] + flags
         opt = R.parseargs(argv)
         if not ticking:
@@ -140,9 +144,21 @@ def run_case(sh, s, d, case, script=None):
             sh.count('backups_under_a_ticking_clock')
         before = set(os.listdir(repo))
         S = committed_prefix()
+        if same_second:
+            sh.count('backups_in_the_second_of_the_previous_backup')
+            listing = {f: os.path.getsize(os.path.join(repo, f)) for f in os.listdir(repo)}
         try:
             try:
-                quiet(R.do_backup, opt)
+                try:
+                    quiet(R.do_backup, opt)
+                except R.WouldOverwriteFiles:
+                    if not same_second:
+                        raise
+                    sh.count('same_second_backups_refused')
+                    if {f: os.path.getsize(os.path.join(repo, f)) for f in os.listdir(repo)} != listing:
+                        sh.violation('c18:refused-backup-changed-the-repository', {'flags': flags}, case)
+                    trace.append('backup%s:refused-same-second' % ''.join(flags))
+                    return
             finally:
                 if ticking:
                     import time as _rt2
